@@ -152,6 +152,9 @@ func (il *IPRequestLimiter) dump() {
 func ipFromRequest(req *http.Request) (string, error) {
 	forwardIP := req.Header.Get("X-Forwarded-For")
 	if forwardIP != "" {
+		if parsedIP := net.ParseIP(strings.TrimSpace(forwardIP)); parsedIP != nil {
+			return parsedIP.String(), nil // same key for every spelling of one address, as for RemoteAddr below
+		}
 		return forwardIP, nil
 	}
 	ip, _, err := net.SplitHostPort(req.RemoteAddr)
